@@ -228,6 +228,30 @@ struct MapAdapter {
   static bool contains(C& c, int k) { return c.contains(k); }
 };
 
+// reclaimer of a container type and an optional region_guard of it
+template <class C>
+struct RecOf;
+template <class K, class R, class... P>
+struct RecOf<harris_michael_list_based_set<K, policy::reclaimer<R>, P...>> {
+  using type = R;
+};
+template <class K, class V, class R, class... P>
+struct RecOf<harris_michael_hash_map<K, V, policy::reclaimer<R>, P...>> {
+  using type = R;
+};
+template <class R>
+struct RegionScope {
+  alignas(typename R::region_guard) unsigned char buf[sizeof(typename R::region_guard)];
+  bool on;
+  explicit RegionScope(bool enable) : on(enable) {
+    if (on) new (buf) typename R::region_guard();
+  }
+  ~RegionScope() {
+    using RG = typename R::region_guard;
+    if (on) reinterpret_cast<RG*>(buf)->~RG();
+  }
+};
+
 template <class A>
 struct MHarness {
   using C = typename A::Cont;
@@ -243,6 +267,7 @@ struct MHarness {
   int nprefix = 0;
   POp progs[MAXT][MAXOPS];
   int nupd = 2;
+  int region_mode = 0;
   bool traverse = false;
   uint8_t tprog[16];
   vh::hvec<MOp> hist[MAXT + 2];
@@ -450,10 +475,14 @@ struct MHarness {
       }
     static const uint32_t wt[6] = {0, 8, 2, 2, 3, 2};
     for (int i = 0; i < 16; ++i) tprog[i] = (uint8_t)vrt::weighted(wt, 6);
+    // last draw (older replay files read 0 = none): threads that run their whole program inside one region_guard
+    region_mode = (int)vrt::choose(4);
+    if (region_mode >= 2) vrt::label("threads_inside_region_guard");
 
     if (vrt::want_desc()) {
       static const char* const kn[O_NK] = {"nop", "insert", "erase", "find", "contains", "find+erase(it)", "yield", "scan"};
-      vrt::desc("keys=%d stable keys>=%d updaters=%d traverser=%d\n  prefix:", U, stable_from, nupd, (int)traverse);
+      vrt::desc("keys=%d stable keys>=%d updaters=%d traverser=%d%s\n  prefix:", U, stable_from, nupd, (int)traverse,
+                region_mode == 2 ? " region_guard=all threads" : region_mode == 3 ? " region_guard=U1" : "");
       for (int i = 0; i < nprefix; ++i) vrt::desc(" %s/%d(%d)", kn[prefix[i].kind], prefix[i].variant, prefix[i].key);
       vrt::desc("\n");
       for (int t = 0; t < nupd; ++t) {
@@ -492,9 +521,14 @@ struct MHarness {
     vrt::concurrent_phase(true);
     {
       vh::Threads th;
-      if (traverse) th.start([this] { traverser(hist[MAXT]); });
+      if (traverse)
+        th.start([this] {
+          RegionScope<typename RecOf<C>::type> rg(region_mode == 2);
+          traverser(hist[MAXT]);
+        });
       for (int t = 0; t < nupd; ++t)
         th.start([this, t] {
+          RegionScope<typename RecOf<C>::type> rg(region_mode == 2 || (region_mode == 3 && t == 0));
           for (int i = 0; i < MAXOPS; ++i)
             if (progs[t][i].kind) {
               vrt::point();
